@@ -3,6 +3,7 @@
 //! real library, and writes ndjson records that TLC trace specifications evaluate.
 
 mod diffmod;
+mod rulesmod;
 mod util;
 
 fn main() {
@@ -12,6 +13,7 @@ fn main() {
     match cmd.as_str() {
         "diff-replay" => diffmod::replay(&args),
         "diff-probe" => diffmod::probe(&args),
+        "rules-replay" => rulesmod::replay(&args),
         _ => util::tool_error(&format!("unknown sub-command `{cmd}`")),
     }
 }
